@@ -470,7 +470,10 @@ def build(path, t, v, rng):
     return "(P (%s) (%s) (%s))" % (" ".join(G), " ".join(F), " ".join(M)), query, extra
 
 
-def matrix(rng, types=None, paths=None):
+TYPEDEF_KINDS_QUICK = ("min-1", "min", "max", "max+1", "rand-in", "rand-above", "rand-below")
+
+
+def matrix(rng, types=None, paths=None, all_typedef_kinds=False):
     """-> list of (sexpr, meta) with meta = {path, type, kind, value, query, extra[, typedef]}; a cell whose meta has
     `typedef` is the same program with the target's type written through a typedef alias (see typedef_source)"""
     out = []
@@ -486,7 +489,7 @@ def matrix(rng, types=None, paths=None):
                     continue
                 sx, query, extra = r
                 out.append((sx, {"path": path, "type": t, "kind": kind, "value": v, "query": query, "extra": extra}))
-                if t in TYPEDEF_ALIAS:
+                if t in TYPEDEF_ALIAS and (all_typedef_kinds or kind in TYPEDEF_KINDS_QUICK):
                     q = query
                     if path in TD_MECH_PATH:
                         q = "store %s %s %d" % (TD_MECH_PATH[path], t, v)
